@@ -212,10 +212,16 @@ def elementary_params(draw, kind, wide=False):
                 pts[0] = [0.0, 0.0, 0.0]
                 pts[1] = [0.0, 0.0, draw(length(0.5, 3.0))]
                 pts[2] = [0.0, draw(length(0.5, 3.0)), draw(coord(3.0))]
+            if mode in (2, 3) and draw(st.booleans()):
+                # either orientation of the generated triple
+                pts[1], pts[2] = [-v for v in pts[1]], [-v for v in pts[2]]
             a, b, d = (np.array(q) for q in pts)
             nrm = np.linalg.norm(np.cross(b - a, d - a))
             if nrm > 1e-2 * (1 + np.linalg.norm(b - a) * np.linalg.norm(d - a)):
                 break
+        # the order in which the three points are written is free
+        order = draw(st.permutations([0, 1, 2]))
+        pts = [pts[o] for o in order]
         labels.append('p3:mode%d' % mode)
         return 'p', pts[0] + pts[1] + pts[2], labels
     if kind in ('px', 'py', 'pz'):
